@@ -72,7 +72,7 @@ def run(ctx):
         evp = ctx.path("hist-%s.ev" % kind)
         ctx.harness(h, ["hist-events", "--in", hp, "--out", evp])
         mism, _, n = ctx.validate(evp, chunk=10000, jvms=5, workers=3)
-        for e in core.read_ndjson(evp):
+        for e in core.iter_ndjson(evp):
             if e["ops"]:
                 ctx.nontrivial.add((kind, json.dumps([[o["op"], o["k"], o["v"], o["i"], o["ks"], o["vs"]] for o in e["ops"]])))
         if len(ctx.samples) < 8:
